@@ -102,8 +102,13 @@ func (ctl *Ctl) c15Adopt(name string) int64 {
 }
 
 func c15GoroutineAlive(gid int64) bool {
+	// the dump must be complete: a truncated one would make a live goroutine look finished
 	buf := make([]byte, 1<<20)
 	n := runtime.Stack(buf, true)
+	for n == len(buf) && len(buf) < 1<<28 {
+		buf = make([]byte, 2*len(buf))
+		n = runtime.Stack(buf, true)
+	}
 	return strings.Contains(string(buf[:n]), "goroutine "+strconv.FormatInt(gid, 10)+" [")
 }
 
